@@ -57,6 +57,6 @@ for name in sorted(os.listdir(os.path.join(wt, "seeded"))):
         out["batch"] = batch
     fp = firstpass.get(name)
     if fp is not None:
-        out["first_pass"] = {"detected": fp.get("check_rc") == 1 and bool(fp.get("violations")), "keys": [k.replace("rule-key: ", "") for k in fp.get("violations", [])][:4], "note": "verdict of the checks as they stood when the change arrived (seeded/batch3_firstpass.log)"}
+        out["first_pass"] = {"detected": fp.get("check_rc") == 1 and bool(fp.get("violations")), "keys": [k.replace("rule-key: ", "") for k in fp.get("violations", [])][:4], "note": "verdict of the checks as they stood when the change arrived (seeded/batch%s_firstpass.log)" % (batch or 3) + ""}
     json.dump(out, open(os.path.join(dst, "meta.json"), "w"), indent=1)
     print(name, "detected" if out["check_result"]["detected"] else "MISSED", keys[:2])
